@@ -439,6 +439,8 @@ type Spec struct {
 	Race    bool   // informational: binary is expected to be built with -race
 	Timeout time.Duration
 	Body    func(r *Run)
+	// WorkerEnv: extra environment of worker child i (e.g. a time zone other than UTC for some of them)
+	WorkerEnv func(i int) []string
 }
 
 // Main executes a check according to its Spec and exits the process.
@@ -568,6 +570,9 @@ func (r *Run) runChildren(s Spec, n int) {
 				"GORACE=halt_on_error=0 exitcode=0 log_path="+filepath.Join(dir, "race"),
 				"GOTRACEBACK=all",
 			)
+			if s.WorkerEnv != nil {
+				cmd.Env = append(cmd.Env, s.WorkerEnv(i)...)
+			}
 			cmd.Stdout, cmd.Stderr = logf, logf
 			if err := cmd.Start(); err != nil {
 				r.Violate("harness|cannot start worker", err.Error(), "", nil)
